@@ -337,24 +337,27 @@ class GU(PaneBase, t.Generic[_TU]):
     l: t.List[t.Union[float, _TU]] = field(default_factory=list)
 
 
-GU_INST = (GU[t.Union[int, float]], GU[t.Union[int, str]], GU[t.Optional[t.Union[float, complex]]], GU[int])
+GU_INST = (GU[t.Union[int, float]], GU[t.Union[int, str]], GU[t.Optional[t.Union[float, complex]]], GU[int],
+           GU[t.Union[float, int]], GU[t.Union[str, int]])        # ... and the other member order, subscripted AFTER the first
 # the flattened member order, written by hand
 GU_MEMBERS = (
     dict(f=(float, int), g=(complex, int, float, NoneT), h=(int, float, str), l=(float, int)),
     dict(f=(float, int, str), g=(complex, int, str, NoneT), h=(int, str), l=(float, int, str)),
     dict(f=(float, complex, NoneT), g=(complex, float, NoneT), h=(float, complex, NoneT, str), l=(float, complex, NoneT)),
     dict(f=(float, int), g=(complex, int, NoneT), h=(int, str), l=(float, int)),
+    dict(f=(float, int), g=(complex, float, int, NoneT), h=(float, int, str), l=(float, int)),
+    dict(f=(float, str, int), g=(complex, str, int, NoneT), h=(str, int), l=(float, str, int)),
 )
 for _c in GU_INST:
     make_converter(_c)
 GU_MCONV = {ty: make_converter(ty) for ty in (float, int, str, complex, NoneT)}
 
 
-@obligation(pre="0 <= gi <= 3 and 0 <= fsel <= 3 and 0 <= k <= 4", witnesses=(0, -1), timeout=200)
+@obligation(pre="0 <= gi <= 5 and 0 <= fsel <= 3 and 0 <= k <= 4", witnesses=(0, -1), timeout=200)
 def body_substituted_union(gi: int, fsel: int, k: int, i: int) -> int:
     """a union that mentions a type variable, after substitution by a union sharing members with it: still the left-most accepting member of the FLATTENED declaration order"""
-    cls = GU_INST[0] if gi == 0 else (GU_INST[1] if gi == 1 else (GU_INST[2] if gi == 2 else GU_INST[3]))
-    mem = GU_MEMBERS[0] if gi == 0 else (GU_MEMBERS[1] if gi == 1 else (GU_MEMBERS[2] if gi == 2 else GU_MEMBERS[3]))
+    cls = GU_INST[0] if gi == 0 else (GU_INST[1] if gi == 1 else (GU_INST[2] if gi == 2 else (GU_INST[3] if gi == 3 else (GU_INST[4] if gi == 4 else GU_INST[5]))))
+    mem = GU_MEMBERS[0] if gi == 0 else (GU_MEMBERS[1] if gi == 1 else (GU_MEMBERS[2] if gi == 2 else (GU_MEMBERS[3] if gi == 3 else (GU_MEMBERS[4] if gi == 4 else GU_MEMBERS[5]))))
     fname = 'f' if fsel == 0 else ('g' if fsel == 1 else ('h' if fsel == 2 else 'l'))
     from hlib import lf as _lf
     v = _lf(k, i, 'ab', True)
@@ -384,7 +387,7 @@ def body_substituted_union(gi: int, fsel: int, k: int, i: int) -> int:
     return 0 if ok else -1
 
 
-for _g in range(4):
+for _g in range(6):
     for _f in range(4):
         for _k in range(5):
             try:
